@@ -360,7 +360,11 @@ impl<'a> Searcher<'a> {
                 .unwrap_or(self.config.dockerignore.unwrap_or(false));
             let traversal_mode = root.options.traversal;
 
-            // Apply filters
+            // Apply filters: every root is judged by the ignore files that apply to it, not by those
+            // collected for the roots before it
+            self.hgignore_filters.clear();
+            self.dockerignore_filters.clear();
+
             if apply_hgignore {
                 search_upstream_hgignore(&mut self.hgignore_filters, root_dir);
             }
